@@ -112,6 +112,13 @@ class RandomStub:
         i = self.randrange(len(seq))
         return seq[i]
 
+    def getrandbits(self, k):
+        if isinstance(k, Sym) or k < 0 or k > 6:
+            raise HarnessError("getrandbits only modelled for 0..6 bits")
+        v = self.env.choose(2 ** k, label=('getrandbits', k))
+        self.calls.append(('getrandbits', k, v))
+        return v
+
     def choices(self, population, weights=None, *, cum_weights=None, k=1):
         population = list(population)
         if weights is None:
@@ -194,6 +201,67 @@ def _is_nan_entry(v):
         return False
 
 
+def _trunc(v):
+    """C-style float -> int conversion (toward zero) of a symbolic real"""
+    t = v.t
+    if t.sort() == z3.IntSort():
+        return Sym(t, 'np')
+    return Sym(z3.If(t >= 0, z3.ToInt(t), -z3.ToInt(-t)), 'np')
+
+
+class ModelArray(_np.ndarray):
+    """object-dtype ndarray that remembers the dtype the real array would have ('int' | 'float') and coerces
+    stored elements like NumPy does: a real stored into an integer array is truncated toward zero."""
+    mdtype = None
+
+    def __array_finalize__(self, obj):
+        self.mdtype = None if obj is None or not isinstance(obj, ModelArray) or obj.shape != self.shape else obj.mdtype
+
+    def _coerce(self, v):
+        if self.mdtype == 'int':
+            if isinstance(v, Sym):
+                return _trunc(v)
+            if isinstance(v, NonFinite):
+                raise ValueError("cannot convert float NaN/inf to integer")
+            return int(v)
+        if self.mdtype == 'float':
+            if isinstance(v, Sym):
+                return Sym(to_real(v.t), 'np')
+        return v
+
+    def __setitem__(self, key, value):
+        if self.mdtype is not None and not isinstance(value, (_np.ndarray, list, tuple)):
+            value = self._coerce(value)
+        super().__setitem__(key, value)
+
+
+def _model_array(values, shape, mdtype):
+    arr = _np.empty(shape, dtype=object).view(ModelArray)
+    arr.mdtype = mdtype
+    flat = arr.reshape(-1)
+    flat.mdtype = mdtype
+    for i in range(flat.shape[0]):
+        flat[i] = values[i] if isinstance(values, list) else values
+    return arr
+
+
+def _mdtype_of(values, dtype=None):
+    if dtype is not None:
+        k = _np.dtype(dtype).kind
+        return 'int' if k in 'iub' else ('float' if k == 'f' else None)
+    kinds = set()
+    for v in values:
+        if isinstance(v, Sym):
+            kinds.add('int' if v.is_int else 'float')
+        elif isinstance(v, (bool, int, _np.integer)):
+            kinds.add('int')
+        elif isinstance(v, (float, _np.floating, Fraction)):
+            kinds.add('float')
+        else:
+            return None
+    return 'int' if kinds == {'int'} else ('float' if kinds else None)
+
+
 class NumpyShim:
     """Delegates to real NumPy except for the handful of functions that would realise a symbol."""
 
@@ -222,6 +290,29 @@ class NumpyShim:
         if any(_is_symbolic(v) for v in flat):
             return _np.array(obj, dtype=object)
         return _np.asarray(obj, *a, **k)
+
+    def full(self, shape, fill_value, dtype=None, **k):
+        if self._env.mode != 'sym':
+            return _np.full(shape, fill_value, dtype=dtype, **k)
+        shp = (shape,) if isinstance(shape, int) else tuple(shape)
+        return _model_array(fill_value, shp, _mdtype_of([fill_value], dtype))
+
+    def zeros(self, shape, dtype=float, **k):
+        if self._env.mode != 'sym':
+            return _np.zeros(shape, dtype=dtype, **k)
+        shp = (shape,) if isinstance(shape, int) else tuple(shape)
+        md = _mdtype_of([], dtype)
+        return _model_array(0 if md == 'int' else 0.0, shp, md)
+
+    def ones(self, shape, dtype=float, **k):
+        if self._env.mode != 'sym':
+            return _np.ones(shape, dtype=dtype, **k)
+        shp = (shape,) if isinstance(shape, int) else tuple(shape)
+        md = _mdtype_of([], dtype)
+        return _model_array(1 if md == 'int' else 1.0, shp, md)
+
+    def empty(self, shape, dtype=float, **k):
+        return self.zeros(shape, dtype=dtype)
 
     # -- reductions
     def mean(self, a, *args, **kwargs):
@@ -568,6 +659,9 @@ class UFLoss:
 
     def value(self, y_true, y_pred):
         labs = sorted(y_pred.keys(), key=lambda k: (type(k).__name__, str(k)))
+        if self.flavor == 'int':       # an integer-typed loss (0-1 loss, absolute error on integer data, ...)
+            f = self.env.uf(f"{self.name}i_{'_'.join(_lab(l) for l in labs) or 'empty'}", 1 + len(labs), int_result=True)
+            return f(y_true, *[y_pred[l] for l in labs], flavor='py')
         f = self.env.uf(f"{self.name}_{'_'.join(_lab(l) for l in labs) or 'empty'}", 1 + len(labs))
         return f(y_true, *[y_pred[l] for l in labs], flavor=self.flavor)
 
